@@ -770,8 +770,11 @@ func replay(c *core.Ctx, u *universe) error {
 		var w sortWitness
 		c.ReplayWitness(&w)
 		e := newSortEnv(c, u, &orderRel{u: u, cmp: map[string][][]int{"am": {}}})
-		// a fresh context, as a query has
-		zctx := zed.NewContext()
+		// a fresh context, as a query has, with the same type ids as in the failing run
+		zctx, err := contextWithTypes(w.Types)
+		if err != nil {
+			return err
+		}
 		var recs []zed.Value
 		for _, r := range w.Records {
 			v, err := zson.ParseValue(zctx, r)
